@@ -7,6 +7,11 @@ caught is applied to a *scratch copy of the current /repo/src* (under the system
 the rules that caught it are run on that copy, and a new finding of the property is expected.  A patch that no
 longer applies to the current tree is skipped (the tree has moved on), never counted as a miss.
 
+A second family of controls comes from the repair history: every `fix:` commit recorded for the property in
+known_findings.json is reverted on a scratch copy (`git show -R <commit> -- src | patch`) and the rule that found the
+defect must report the recorded key again ("a fixed entry suppresses nothing ... reports the violation again if it
+ever returns").  A reverse patch that no longer applies is skipped.
+
 Controls never change the verdict on /repo: they are reported in the evidence ("controls") and on stdout
 (CONTROL lines).  Only when *every* applicable control of a property is missed - the engine is blind - does the
 thorough check end with ANALYSIS-BROKEN (exit 2), which is neither a pass nor a violation.
@@ -30,6 +35,57 @@ RULE_MODULE = {
 }
 
 
+def module_of(rule):
+    """rule id -> module name: the table above, else the file of vstat/rules whose name starts with the id (r58_...)"""
+    if rule in RULE_MODULE:
+        return RULE_MODULE[rule]
+    pre = rule.lower() + "_"
+    for fn in sorted(os.listdir(os.path.join(VERIF, "vstat", "rules"))):
+        if fn.startswith(pre) and fn.endswith(".py"):
+            return fn[:-3]
+    return None
+
+
+def _revert_one(pid, commit, keys, baseline, registered):
+    """positive control from the repair history: undo one `fix:` commit on a scratch copy; the rule that found the defect
+    must report the recorded key again"""
+    from .model import Program
+    from .facts import AnalysisBroken, SRC
+    tmp = tempfile.mkdtemp(prefix="vctl_rev_%s_" % commit)
+    name = "revert:%s" % commit
+    try:
+        os.makedirs(os.path.join(tmp, "src"))
+        root = os.path.dirname(SRC)
+        if os.path.exists(os.path.join(root, "config.h")):
+            shutil.copy(os.path.join(root, "config.h"), tmp)
+        for fn in os.listdir(SRC):
+            if fn.endswith((".c", ".h")) or fn in ("Makefile.am", "Makefile"):
+                shutil.copy(os.path.join(SRC, fn), os.path.join(tmp, "src"))
+        r = subprocess.run("git -C %s show -R %s -- src > rev.diff && patch -p1 -s --no-backup-if-mismatch < rev.diff" % (root, commit),
+                           shell=True, cwd=tmp, capture_output=True, text=True)
+        if r.returncode != 0:
+            return {"control": name, "status": "skipped", "why": "reverse patch does not apply (later commits changed the same lines)"}
+        mods = sorted({m for m in (module_of(k.split("|")[0]) for k in keys) if m is not None and m in registered})
+        if not mods:
+            return {"control": name, "status": "skipped", "why": "rule of the recorded key is not registered for this property"}
+        try:
+            P = Program(os.path.join(tmp, "src"))
+            hits = []
+            for m in mods:
+                res = importlib.import_module("vstat.rules." + m).run(P, "quick")
+                for rr in (res if isinstance(res, (list, tuple)) else [res]):
+                    for fd in rr.findings:
+                        if fd.key not in baseline and (fd.key in keys or fd.key.split("|")[0] in {k.split("|")[0] for k in keys}):
+                            hits.append(fd.key)
+        except AnalysisBroken as e:
+            return {"control": name, "status": "detected", "by": "ANALYSIS-BROKEN: %s" % str(e)[:120], "rules_run": []}
+        if hits:
+            return {"control": name, "status": "detected", "by": sorted(set(hits))[:3], "rules_run": mods}
+        return {"control": name, "status": "missed", "rules_run": mods, "expected": sorted(keys)[:3]}
+    finally:
+        shutil.rmtree(tmp, ignore_errors=True)
+
+
 def _one(pid, sid, rules, baseline, registered):
     from .model import Program
     from .facts import AnalysisBroken, SRC
@@ -49,7 +105,7 @@ def _one(pid, sid, rules, baseline, registered):
         try:
             P = Program(os.path.join(tmp, "src"))
             hits = []
-            mods = sorted({RULE_MODULE[x] for x in rules if x in RULE_MODULE and RULE_MODULE[x] in registered})
+            mods = sorted({module_of(x) for x in rules if module_of(x) is not None and module_of(x) in registered})
             for m in mods:
                 res = importlib.import_module("vstat.rules." + m).run(P, "quick")
                 for rr in (res if isinstance(res, (list, tuple)) else [res]):
@@ -79,12 +135,33 @@ def run_controls(pid, baseline_keys, registered):
         if not os.path.exists(os.path.join(VERIF, "seeded", sid, "patch.diff")):
             continue
         jobs.append((pid, sid, ent.get("rules", []), baseline_keys, registered))
-    if not jobs:
+    # repairs recorded for this property: each reverted on a scratch copy
+    rjobs = []
+    try:
+        kf = json.load(open(os.path.join(VERIF, "known_findings.json")))
+        by_commit = {}
+        for e in kf.get("fixed", []):
+            if e.get("commit") and e.get("key") and pid in e.get("properties", []):
+                by_commit.setdefault(e["commit"], set()).add(e["key"])
+        for c, keys in sorted(by_commit.items()):
+            rjobs.append((pid, c, keys, baseline_keys, registered))
+    except (OSError, ValueError):
+        pass
+    if not jobs and not rjobs:
         return []
     import concurrent.futures
-    with concurrent.futures.ProcessPoolExecutor(max_workers=min(6, len(jobs))) as ex:
-        return list(ex.map(_star, jobs))
+    out = []
+    with concurrent.futures.ProcessPoolExecutor(max_workers=8) as ex:
+        if jobs:
+            out += list(ex.map(_star, jobs))
+        if rjobs:
+            out += list(ex.map(_rstar, rjobs))
+    return out
 
 
 def _star(args):
     return _one(*args)
+
+
+def _rstar(args):
+    return _revert_one(*args)
